@@ -30,6 +30,9 @@
 // margin sets the minimal offset for any new text and retained until new margin is set:
 // "hello" [margin 8] "world" is rendered as "hello   world"
 
+#[cfg(bpaf_verif)]
+#[allow(unused_imports)]
+use crate::verif::std;
 use super::{
     splitter::{split, Chunk},
     Block, Doc, Skip, Token,
